@@ -141,9 +141,9 @@ Print Assumptions op_convert_records_iff_reports_success.
 (* FULL STATEMENT, proved: Call's snapshot/revert makes CreateETX all-or-nothing although its
    index-overflow and eligibility checks also follow the debit.  The prepaid destination fee is the
    forwarded gas (gas - ETXGas), bought by the transaction; the balance debit is exactly the value. *)
-Theorem send_all_or_nothing_create_etx_call : forall fuel c depth caller addr gas value w,
+Theorem send_all_or_nothing_create_etx_call : forall fuel c ro depth caller addr gas value w,
   internal_quai (x_pfx c) addr = false ->
-  let r := call (S fuel) c depth caller addr gas value w in
+  let r := call (S fuel) c (FK CkCall) ro depth caller addr gas value w in
   (c_err r = 0 /\ c_gas r = 0 /\ value <= getb caller (w_bal w) /\
    w_bal (c_world r) = subb caller value (w_bal w) /\
    exists e, w_etxs (c_world r) = w_etxs w ++ [e] /\ e_value e = value /\ e_index e = lenN (w_etxs w) /\
@@ -152,44 +152,97 @@ Theorem send_all_or_nothing_create_etx_call : forall fuel c depth caller addr ga
 Proof. exact create_etx_call_aon. Qed.
 Print Assumptions send_all_or_nothing_create_etx_call.
 
-(* ---------------- call frames ---------------- *)
+(* ---------------- frames of every kind ----------------
+   [call fuel c k ro depth caller addr gas value w] is EVM.Call (k = FK CkCall), EVM.CallCode (FK CkCallCode),
+   EVM.DelegateCall (FK CkDelegate), EVM.StaticCall (FK CkStatic) or EVM.Create / Create2 + create
+   (FCreate init naddr grind); the programs may use CALL, CALLCODE, DELEGATECALL, STATICCALL, CREATE and CREATE2
+   to any depth.  The four statements below quantify over the kind k of the outermost frame as well. *)
 
-(* a call that returns an error (fault, REVERT, depth, balance, CreateETX error) leaves balances and
-   the ETX list exactly as they were -- for every program, to any depth *)
-Theorem failed_call_leaves_no_trace : forall fuel c depth caller addr gas value w,
-  c_err (call fuel c depth caller addr gas value w) <> 0 ->
-  c_world (call fuel c depth caller addr gas value w) = w.
+(* FULL STATEMENT (refuted on the code as it is): a frame that returns an error leaves balances and the ETX
+   list exactly as they were:
+     forall fuel c k ro depth caller addr gas value w,
+       c_err (call fuel c k ro depth caller addr gas value w) <> 0 -> c_world (call ...) = w.
+   Constructors break it: evm.go:create does not restore its snapshot after ErrCodeStoreOutOfGas (the pre-Homestead
+   rule of go-ethereum), so a constructor that sends and then returns more code than its gas can pay for makes
+   CREATE push 0 while the endowment, the send's debit and its ETX all stay.  The send itself remains
+   all-or-nothing (the ETX is backed by the debit of the new account); what is wrong is the report of the frame.
+   Finding create:code-store-out-of-gas (design/C05.findings.json); the witness is a corpus case of the harness. *)
+Theorem failed_frame_leaves_no_trace_refuted :
+  exists fuel c k ro depth caller addr gas value w,
+    c_err (call fuel c k ro depth caller addr gas value w) <> 0 /\
+    c_world (call fuel c k ro depth caller addr gas value w) <> w.
+Proof. exact failed_frame_no_trace_refuted. Qed.
+Print Assumptions failed_frame_leaves_no_trace_refuted.
+
+Theorem constructor_code_store_out_of_gas_keeps_effects :
+  let r := call 5 (wit_ctx wit_post 2 []) (FCreate wit_ctor_big_code wit_new 0) false 0 wit_self 0 2000000 1000000 wit_world in
+  c_err r = 6 /\
+  w_etxs (c_world r) = [mkEtx wit_to wit_new 12345 0 EtxDefaultType 21000] /\
+  getb wit_new (w_bal (c_world r)) = 1000000 - 75345 /\ getb wit_self (w_bal (c_world r)) = e21 - 1000000.
+Proof. exact ctor_code_store_witness. Qed.
+Print Assumptions constructor_code_store_out_of_gas_keeps_effects.
+
+(* PROVED in full for the four message-call kinds: a CALL / CALLCODE / DELEGATECALL / STATICCALL frame that returns
+   an error (fault, REVERT, depth, balance, write protection, bad target, CreateETX error, an error re-raised from
+   below ...) leaves balances and the ETX list exactly as they were -- for every program, to any depth *)
+Theorem failed_call_leaves_no_trace : forall fuel c k ro depth caller addr gas value w,
+  c_err (call fuel c (FK k) ro depth caller addr gas value w) <> 0 ->
+  c_world (call fuel c (FK k) ro depth caller addr gas value w) = w.
 Proof. exact call_failed_no_trace. Qed.
 Print Assumptions failed_call_leaves_no_trace.
 
-(* the ETX list after a call = the list before ++ the ETXs recorded by the operations of frames that
-   were not reverted, in execution order ([emitted]: an EvCall contributes its sub-trace only if ok);
-   by the two records_iff_reports_success theorems these are exactly the operations that pushed 1 *)
-Theorem outbound_set_is_successful_ops : forall fuel c depth caller addr gas value w,
-  let r := call fuel c depth caller addr gas value w in
-  w_etxs (c_world r) = w_etxs w ++ (if c_err r =? 0 then emitted_all (c_tr r) else []).
+(* PARTIAL for constructors (strongest true statement): every error except ErrCodeStoreOutOfGas (class 6) *)
+Theorem failed_frame_leaves_no_trace_partial : forall fuel c k ro depth caller addr gas value w,
+  c_err (call fuel c k ro depth caller addr gas value w) <> 0 ->
+  c_err (call fuel c k ro depth caller addr gas value w) <> 6 ->
+  c_world (call fuel c k ro depth caller addr gas value w) = w.
+Proof. exact call_failed_no_trace_partial. Qed.
+Print Assumptions failed_frame_leaves_no_trace_partial.
+
+(* the ETX list after a frame = the list before ++ the ETXs recorded by the operations of frames that
+   were not reverted, in execution order ([emitted]: an EvCall -- a frame of ANY kind -- contributes its
+   sub-trace only if it was kept; [kept r] = no error, or the constructors' ErrCodeStoreOutOfGas); by the two
+   records_iff_reports_success theorems these are exactly the operations that pushed 1 *)
+Theorem outbound_set_is_successful_ops : forall fuel c k ro depth caller addr gas value w,
+  let r := call fuel c k ro depth caller addr gas value w in
+  w_etxs (c_world r) = w_etxs w ++ (if kept r then emitted_all (c_tr r) else []).
 Proof. exact call_outbound. Qed.
 Print Assumptions outbound_set_is_successful_ops.
 
 (* indices are the positions 0,1,2,... without gaps *)
-Theorem outbound_indices_are_positions : forall fuel c depth caller addr gas value w,
-  indices_ok (w_etxs w) -> indices_ok (w_etxs (c_world (call fuel c depth caller addr gas value w))).
+Theorem outbound_indices_are_positions : forall fuel c k ro depth caller addr gas value w,
+  indices_ok (w_etxs w) -> indices_ok (w_etxs (c_world (call fuel c k ro depth caller addr gas value w))).
 Proof. exact call_indices. Qed.
 Print Assumptions outbound_indices_are_positions.
 
 (* value leaves the accounts only through the debits of send operations in non-reverted frames
-   (transfers between accounts are neutral, reverted frames give everything back) *)
-Theorem value_leaves_only_through_send_operations : forall fuel c depth caller addr gas value w,
-  let r := call fuel c depth caller addr gas value w in
-  sumb (w_bal (c_world r)) + (if c_err r =? 0 then debited_all (c_tr r) else 0) = sumb (w_bal w).
+   (transfers between accounts -- CALL value, constructor endowment -- are neutral, reverted frames give
+   everything back) *)
+Theorem value_leaves_only_through_send_operations : forall fuel c k ro depth caller addr gas value w,
+  let r := call fuel c k ro depth caller addr gas value w in
+  sumb (w_bal (c_world r)) + (if kept r then debited_all (c_tr r) else 0) = sumb (w_bal w).
 Proof. exact call_conservation. Qed.
 Print Assumptions value_leaves_only_through_send_operations.
+
+(* a STATICCALL frame (and whatever it calls) neither debits anybody nor records an ETX: ETX, CONVERT, CREATE,
+   CREATE2 and value-carrying CALLs are write-protected (the "writes" flags come from the generated jump-table
+   rows) and the flag is inherited by every frame below *)
+Theorem static_frame_sends_nothing : forall fuel c ro depth caller addr gas value w,
+  c_world (call fuel c (FK CkStatic) ro depth caller addr gas value w) = w.
+Proof. exact static_call_world. Qed.
+Print Assumptions static_frame_sends_nothing.
+
+(* ... more generally every frame function reached while interpreter.readOnly is set ([ro_args]) *)
+Theorem read_only_frames_send_nothing : forall fuel c k ro depth caller addr gas value w,
+  ro_args c k ro addr value -> c_world (call fuel c k ro depth caller addr gas value w) = w.
+Proof. exact call_ro_inv. Qed.
+Print Assumptions read_only_frames_send_nothing.
 
 (* FULL transaction-level statement (refuted, consequence of F2): "a successful transaction loses
    exactly what its recorded ETXs carry".  Witness: the frame does not fault, 75345 is gone, no ETX. *)
 Theorem transaction_loses_value_without_etx_refuted :
   exists fuel c caller addr gas value w,
-    let r := call fuel c 0 caller addr gas value w in
+    let r := call fuel c (FK CkCall) false 0 caller addr gas value w in
     c_err r = 0 /\ emitted_all (c_tr r) = [] /\ sumb (w_bal (c_world r)) < sumb (w_bal w).
 Proof. exact tx_aon_refuted. Qed.
 Print Assumptions transaction_loses_value_without_etx_refuted.
@@ -261,27 +314,27 @@ Proof. vm_compute. repeat split; reflexivity. Qed.
 
 (* top-level call to a foreign address: one ETX, debit = value, gas forwarded *)
 Example create_etx_call_nonvacuous :
-  let r := call 3 (wit_ctx wit_post 2 []) 0 wit_origin wit_to 50000 1000 wit_world in
+  let r := call 3 (wit_ctx wit_post 2 []) (FK CkCall) false 0 wit_origin wit_to 50000 1000 wit_world in
   c_err r = 0 /\ w_etxs (c_world r) = [mkEtx wit_to wit_origin 1000 0 EtxDefaultType 29000] /\
   getb wit_origin (w_bal (c_world r)) = e21 - 1000.
 Proof. vm_compute. auto. Qed.
 
 (* ... and to an ineligible one: the debit is reverted by Call *)
 Example create_etx_call_failure_nonvacuous :
-  let r := call 3 (wit_ctx wit_post 0 []) 0 wit_origin wit_to 50000 1000 wit_world in
+  let r := call 3 (wit_ctx wit_post 0 []) (FK CkCall) false 0 wit_origin wit_to 50000 1000 wit_world in
   c_err r = 2 /\ c_world r = wit_world.
 Proof. vm_compute. auto. Qed.
 
 (* F2 with an empty stack below: the POP after the ETX underflows, the frame faults, nothing is left *)
 Example failed_call_nonvacuous :
-  let r := call 5 (wit_ctx wit_post 0 [(wit_self, wit_prog_inelig false)]) 0 wit_origin wit_self 10000000 0 wit_world in
+  let r := call 5 (wit_ctx wit_post 0 [(wit_self, wit_prog_inelig false)]) (FK CkCall) false 0 wit_origin wit_self 10000000 0 wit_world in
   c_err r = 2 /\ c_world r = wit_world /\
   c_tr r = [EvOp 0 (mkRes 75345 None None)].
 Proof. vm_compute. auto. Qed.
 
 (* F2 with one word below: the POP eats it, the transaction succeeds and 75345 has vanished *)
 Example no_status_word_loss_nonvacuous :
-  let r := call 5 (wit_ctx wit_post 0 [(wit_self, wit_prog_inelig true)]) 0 wit_origin wit_self 10000000 0 wit_world in
+  let r := call 5 (wit_ctx wit_post 0 [(wit_self, wit_prog_inelig true)]) (FK CkCall) false 0 wit_origin wit_self 10000000 0 wit_world in
   c_err r = 0 /\ w_etxs (c_world r) = [] /\ sumb (w_bal (c_world r)) + 75345 = sumb (w_bal wit_world).
 Proof. exact tx_loss_witness_no_status. Qed.
 
@@ -289,12 +342,94 @@ Proof. exact tx_loss_witness_no_status. Qed.
 Example outbound_set_nonvacuous :
   let send := [IPush 0; IPush 0; IPush 0; IPush 0; IPush 2; IPush 1; IPush 21000; IPush 12345; IPush wit_to; IPush 0; IEtx false; IPop] in
   let child := 0x0003b2b2b2b2b2b2b2b2b2b2b2b2b2b2b2b2b2b2 in
-  let parent := send ++ [IPush 0; IPush 0; IPush 0; IPush 0; IPush 0; IPush child; IPush 500000; ICall; IPop] ++ send ++ [IStop] in
+  let parent := send ++ [IPush 0; IPush 0; IPush 0; IPush 0; IPush 0; IPush child; IPush 500000; ICallK CkCall; IPop] ++ send ++ [IStop] in
   let c := wit_ctx wit_post 2 [(wit_self, parent); (child, send ++ [IPush 0; IPush 0; IRevert])] in
   let w := mkW [(wit_origin, e21); (wit_self, e21); (child, e21)] [] in
-  let r := call 6 c 0 wit_origin wit_self 10000000 0 w in
+  let r := call 6 c (FK CkCall) false 0 wit_origin wit_self 10000000 0 w in
   c_err r = 0 /\
   map e_index (w_etxs (c_world r)) = [0; 1] /\ map e_sender (w_etxs (c_world r)) = [wit_self; wit_self] /\
   getb child (w_bal (c_world r)) = e21 /\ getb wit_self (w_bal (c_world r)) = e21 - 2 * 75345 /\
   emitted_all (c_tr r) = w_etxs (c_world r).
+Proof. vm_compute. repeat split; reflexivity. Qed.
+
+(* the same through CALLCODE and DELEGATECALL: the child's code runs as the parent, so the child's send is the
+   PARENT's send (sender and debit); it disappears together with its debit when the child frame reverts *)
+Definition ex_send : list instr :=
+  [IPush 0; IPush 0; IPush 0; IPush 0; IPush 2; IPush 1; IPush 21000; IPush 12345; IPush wit_to; IPush 0; IEtx false; IPop].
+Definition ex_child : N := 0x0003b2b2b2b2b2b2b2b2b2b2b2b2b2b2b2b2b2b2.
+Definition ex_callk (k : ckind) : list instr :=
+  [IPush 0; IPush 0; IPush 0; IPush 0] ++ (match k with CkCall | CkCallCode => [IPush 0] | _ => [] end) ++
+  [IPush ex_child; IPush 500000; ICallK k; IPop].
+Definition ex_run (k : ckind) (child_end : list instr) : cres :=
+  let parent := ex_send ++ ex_callk k ++ ex_send ++ [IStop] in
+  let c := wit_ctx wit_post 2 [(wit_self, parent); (ex_child, ex_send ++ child_end)] in
+  call 6 c (FK CkCall) false 0 wit_origin wit_self 10000000 0 (mkW [(wit_origin, e21); (wit_self, e21); (ex_child, e21)] []).
+
+Example outbound_set_reverted_callcode_delegatecall_nonvacuous :
+  forall k, k = CkCallCode \/ k = CkDelegate ->
+  let r := ex_run k [IPush 0; IPush 0; IRevert] in
+  c_err r = 0 /\
+  map e_index (w_etxs (c_world r)) = [0; 1] /\ map e_sender (w_etxs (c_world r)) = [wit_self; wit_self] /\
+  getb ex_child (w_bal (c_world r)) = e21 /\ getb wit_self (w_bal (c_world r)) = e21 - 2 * 75345 /\
+  emitted_all (c_tr r) = w_etxs (c_world r).
+Proof. intros k [H|H]; subst k; vm_compute; repeat split; reflexivity. Qed.
+
+Example outbound_set_successful_callcode_delegatecall_nonvacuous :
+  forall k, k = CkCallCode \/ k = CkDelegate ->
+  let r := ex_run k [IStop] in
+  c_err r = 0 /\
+  map e_index (w_etxs (c_world r)) = [0; 1; 2] /\ map e_sender (w_etxs (c_world r)) = [wit_self; wit_self; wit_self] /\
+  getb ex_child (w_bal (c_world r)) = e21 /\ getb wit_self (w_bal (c_world r)) = e21 - 3 * 75345.
+Proof. intros k [H|H]; subst k; vm_compute; repeat split; reflexivity. Qed.
+
+(* through CALL the child is its own sender *)
+Example outbound_set_successful_call_nonvacuous :
+  let r := ex_run CkCall [IStop] in
+  c_err r = 0 /\ map e_sender (w_etxs (c_world r)) = [wit_self; ex_child; wit_self] /\
+  getb ex_child (w_bal (c_world r)) = e21 - 75345 /\ getb wit_self (w_bal (c_world r)) = e21 - 2 * 75345.
+Proof. vm_compute. repeat split; reflexivity. Qed.
+
+(* through STATICCALL the child's ETX is write-protected: the child faults, the parent's two sends remain *)
+Example static_frame_nonvacuous :
+  let r := ex_run CkStatic [IStop] in
+  c_err r = 0 /\ map e_index (w_etxs (c_world r)) = [0; 1] /\ map e_sender (w_etxs (c_world r)) = [wit_self; wit_self] /\
+  c_tr r = [EvOp 0 (mkRes 75345 (Some 1) (Some (mkEtx wit_to wit_self 12345 0 EtxDefaultType 21000)));
+            EvCall false [];
+            EvOp 0 (mkRes 75345 (Some 1) (Some (mkEtx wit_to wit_self 12345 1 EtxDefaultType 21000)))].
+Proof. vm_compute. repeat split; reflexivity. Qed.
+
+(* a constructor (CREATE / CREATE2) sends from the new account, out of its endowment; if it reverts, the
+   endowment, the debit and the ETX are all undone and the parent's next send takes index 0 *)
+Definition ex_new : N := 0x0009c9c9c9c9c9c9c9c9c9c9c9c9c9c9c9c9c9c9.
+Definition ex_create_run (two : bool) (ctor_end : list instr) : cres :=
+  let parent := (if two then [IPush 7] else []) ++
+                [IPush 0; IPush 0; IPush 100000; ICreate two (ex_send ++ ctor_end) ex_new 0; IPop] ++ ex_send ++ [IStop] in
+  let c := wit_ctx wit_post 2 [(wit_self, parent)] in
+  call 6 c (FK CkCall) false 0 wit_origin wit_self 10000000 0 (mkW [(wit_origin, e21); (wit_self, e21)] []).
+
+Example constructor_send_nonvacuous : forall two,
+  let r := ex_create_run two [IStop] in
+  c_err r = 0 /\ map e_index (w_etxs (c_world r)) = [0; 1] /\ map e_sender (w_etxs (c_world r)) = [ex_new; wit_self] /\
+  getb ex_new (w_bal (c_world r)) = 100000 - 75345 /\ getb wit_self (w_bal (c_world r)) = e21 - 100000 - 75345.
+Proof. intros [|]; vm_compute; repeat split; reflexivity. Qed.
+
+Example constructor_revert_nonvacuous : forall two,
+  let r := ex_create_run two [IPush 0; IPush 0; IRevert] in
+  c_err r = 0 /\ map e_index (w_etxs (c_world r)) = [0] /\ map e_sender (w_etxs (c_world r)) = [wit_self] /\
+  getb ex_new (w_bal (c_world r)) = 0 /\ getb wit_self (w_bal (c_world r)) = e21 - 75345.
+Proof. intros [|]; vm_compute; repeat split; reflexivity. Qed.
+
+(* a constructor that returns code it CAN pay for: the deposit is charged (CreateDataGas per byte) and everything stays *)
+Example constructor_code_deposit_nonvacuous :
+  let ctor := ex_send ++ [IPush 100; IPush 0; IReturn] in
+  let r := call 5 (wit_ctx wit_post 2 []) (FCreate ctor ex_new 0) false 0 wit_self 0 2000000 1000000 wit_world in
+  let r0 := call 5 (wit_ctx wit_post 2 []) (FCreate (ex_send ++ [IStop]) ex_new 0) false 0 wit_self 0 2000000 1000000 wit_world in
+  c_err r = 0 /\ map e_sender (w_etxs (c_world r)) = [ex_new] /\ c_gas r0 - c_gas r = 100 * CreateDataGas + 3 + 3 + 12.
+Proof. vm_compute. repeat split; reflexivity. Qed.
+
+(* ... and one whose code exceeds the size limit: reverted like any other failure *)
+Example constructor_code_too_large_nonvacuous :
+  let ctor := ex_send ++ [IPush (MaxCodeSize + 1); IPush 0; IReturn] in
+  let r := call 5 (wit_ctx wit_post 2 []) (FCreate ctor ex_new 0) false 0 wit_self 0 20000000 1000000 wit_world in
+  c_err r = 2 /\ c_world r = wit_world /\ c_gas r = 0.
 Proof. vm_compute. repeat split; reflexivity. Qed.
